@@ -10,8 +10,8 @@ def coop_text(what, sweeps=True):
             "random walk over a deterministic cooperative scheduler that owns every synchronisation operation of the instrumented library, virtual clock "
             "included); " + what + (SWEEP_TEXT if sweeps else "") + " Failures shrink to a minimal replayable JSON case.")
 META = {
- "C01": {"technique": "stateful property-based testing with generated schedules (rapid + cooperative deterministic scheduler); history invariant oracle",
-         "text": coop_text("the oracle is an invariant over the totally ordered history: each accepted job entered exactly once with its ID/data unless cancelled/purged, rejected/cancelled never entered."), "note": COOP_NOTE},
+ "C01": {"technique": "stateful property-based testing with generated schedules (rapid + cooperative deterministic scheduler); history invariant oracle; plus differential model-based test of the queue types",
+         "text": coop_text("the oracle is an invariant over the totally ordered history: each accepted job entered exactly once with its ID/data unless cancelled/purged, rejected/cancelled never entered.") + " Second part: differential (model-based) test of internal/queues against a slice model over generated enqueue/dequeue/purge sequences with bursts across the 1024/1536/... segment boundaries: nothing lost, duplicated or invented.", "note": COOP_NOTE},
  "C02": {"technique": "property-based testing with generated schedules; peak in-flight invariant against a sound limit window",
          "text": coop_text("the oracle compares the number of worker-function invocations in progress at every start event with the largest limit in force since the oldest in-flight job was submitted."), "note": COOP_NOTE},
  "C03": {"technique": "property-based testing with generated schedules; exact quiescence/deadlock detection as oracle",
